@@ -22,8 +22,8 @@ from .proc import HarnessError
 
 KNOWN_PATH = os.path.join(VERIF, 'known_findings.json')
 REPLAY_DIR = os.environ.get('VERIF_REPLAY_DIR') or os.path.join(VERIF, 'replays')
-MAX_REPORTED = 8
-SHRINK_BUDGET = 60
+MAX_REPORTED = int(os.environ.get('VERIF_MAX_REPORTED', '8'))       # (the seed regression tool lowers both: it needs the verdict only)
+SHRINK_BUDGET = int(os.environ.get('VERIF_SHRINK_BUDGET', '60'))
 
 
 def load_known(prop_id):
